@@ -162,6 +162,11 @@ pub struct ArcTweak {
     pub data_label: bool,
     /// files with equal contents share ONE stored body (a de-duplicating packer)
     pub share_equal_bodies: bool,
+    /// 0 = canonical label table; k > 0 = the k-th permutation of the label table that keeps the
+    /// order of labels on one address (labels of one address need not be adjacent in the table)
+    pub label_table_perm: usize,
+    /// text section with tail sharing (a name that is the tail of another is stored inside it)
+    pub tail_shared_text: bool,
 }
 
 pub struct ArcImage {
@@ -278,7 +283,15 @@ pub fn build_arc(files: &[(String, Vec<u8>)], l: &ArcLayout, tw: &ArcTweak) -> A
         }
     }
     let data_size = c.data.len();
-    ArcImage { bytes: ref_bin::write_canonical(&c), data_size, body_addr, padded: l.padded }
+    let mut layout = ref_bin::canonical_layout(&c);
+    if tw.label_table_perm > 0 {
+        let perms = ref_bin::label_table_perms(&c);
+        layout.label_perm = perms[tw.label_table_perm % perms.len()].clone();
+    }
+    if tw.tail_shared_text {
+        layout.text_order = ref_bin::TextOrder::TailShared;
+    }
+    ArcImage { bytes: ref_bin::write_layout(&c, &layout), data_size, body_addr, padded: l.padded }
 }
 
 pub fn arc_layouts(n: usize) -> Vec<ArcLayout> {
